@@ -153,8 +153,11 @@ def ob_combine(grid, aest, with_ivar=True, free='both'):
         if not any(good_in):
             for j in range(m):
                 ctx.require(z3.And(zt(R.lift(ivar[j])) == 0, zt(R.lift(flux[j])) == 0), 'no good input pixel: zero flux and inverse variance', dict(d, j=j))
+    # with an aesthetics method the claim 'finite' is checked too: a path on which the real code would produce
+    # NaN / inf (mean of nothing, 0/0) is a violation, not a cut
     return Obligation('combine1fiber %s aest=%s ivar=%d free=%s' % (grid, aest, with_ivar, free), fn,
-                      bounds='grid %s, every flux / inverse variance / fit outcome' % grid, max_paths=400000, max_seconds=1700)
+                      bounds='grid %s, every flux / inverse variance / fit outcome' % grid, max_paths=400000, max_seconds=1700,
+                      nonfinite='violation' if aest else 'cut')
 
 
 GRIDS2D = {
@@ -444,6 +447,8 @@ def replay(rec):
             spec2d.iterfit = saved
         return bool(np.abs(ivar2 - ivar * kk).max() > 1e-9 * max(1.0, np.abs(ivar * kk).max()))
     if flux.shape != (m,) or ivar.shape != (m,) or (ivar < 0).any():
+        return True
+    if not (np.isfinite(flux).all() and np.isfinite(ivar).all()):
         return True
     good = (iv > 0) if with_ivar else np.ones(n, dtype=bool)
     accepted = list(good)
